@@ -3,7 +3,7 @@
    on concrete workbooks, and the bounds are attained to the stated order.
    Everything here is a test on literals (vm_compute on closed terms only). *)
 From Coq Require Import ZArith QArith Qabs Qpower List Bool Lia Lqa.
-From PV Require Import Lib.Py Model.Iter Proofs.C06 Proofs.C06Lin Proofs.C06Struct Proofs.C06Cone Proofs.C06Conv.
+From PV Require Import Lib.Py Model.Iter Proofs.C06 Proofs.C06Lin Proofs.C06Struct Proofs.C06Cone Proofs.C06Conv Proofs.C06Ready.
 Import ListNotations.
 Open Scope Q_scope.
 
@@ -201,4 +201,67 @@ Proof.
               acy_quiet acy_cone_built) as (v & st' & E & Hv & _).
   - cbn. lia.
   - exists v, st'. split; [exact E|exact Hv].
+Qed.
+
+(* ------------------------------------------------------------------ *)
+(* 4. From the initial state: a system with a constant k (= 1, later     *)
+(*    written to 8):  x = 0.25 y + 0.25 k,  y = 0.25 x + 2.              *)
+(*    The hypotheses of C06_converged follow from the history alone.    *)
+
+Definition w4 : wbook :=
+  {| w_cells := [ {| stored := None; formula := Some (0, [TCell (1#4) 1%nat; TCell (1#4) 2%nat]) |};
+                  {| stored := None; formula := Some (2, [TCell (1#4) 0%nat]) |};
+                  {| stored := Some 1; formula := None |} ];
+     w_ranges := [] |}.
+(* fixed point for k: x = (4 k + 8) / 15, y = (k + 32) / 15 *)
+Definition xs4 (k : Q) (c : nat) : Q :=
+  match c with 0%nat => (4 * k + 8) / 15 | 1%nat => (k + 32) / 15 | 2%nat => k | _ => 0 end.
+
+Example hist_no_sum : no_sum w4.
+Proof.
+  intros [|[|[|[|c]]]] b ts F; cbn in F; inversion F; subst; intros t Ht; cbn in Ht;
+    repeat (destruct Ht as [<-|Ht]; [exact I|]); destruct Ht.
+Qed.
+Example hist_fixed_point : forall k, fixed_point w4 (xs4 k).
+Proof.
+  intros k [|[|[|[|c]]]] b ts F; cbn in F; inversion F; subst; cbn [tdot xs4]; field.
+Qed.
+Example hist_row_bound : row_bound w4 (1#2).
+Proof. intros [|[|[|[|c]]]] b ts F; cbn in F; inversion F; subst; closed_le. Qed.
+
+Definition r4a : res (val * state) := Eval vm_compute in evaluate_iterative w4 0 100 tol3 (init_state w4).
+Definition st4a : state := Eval vm_compute in st_of w4 r4a.
+Definition st4b : state :=
+  Eval vm_compute in match set_value 2 (Some 8) st4a with Ok s => s | Raise _ => st4a end.
+Definition r4c : res (val * state) := Eval vm_compute in evaluate_iterative w4 0 100 tol3 st4b.
+
+Example hist_run1 : evaluate_iterative w4 0 100 tol3 (init_state w4) = Ok (v_of r4a, st4a).
+Proof. vm_compute. reflexivity. Qed.
+Example hist_write : set_value 2 (Some 8) st4a = Ok st4b.
+Proof. vm_compute. reflexivity. Qed.
+Example hist_run2 : evaluate_iterative w4 0 100 tol3 st4b = Ok (v_of r4c, st_of w4 r4c).
+Proof. vm_compute. reflexivity. Qed.
+Example hist_early : (itn (tr (st_of w4 r4c)) < 100)%Z.
+Proof. vm_compute. reflexivity. Qed.
+
+(* initial state -> evaluate -> write k := 8 -> cone_ready for the new fixed point *)
+Example hist_ready : cone_ready w4 (xs4 8) 0 st4b.
+Proof.
+  assert (H0 : calm (init_state w4) /\ consts_ok w4 (xs4 1) (init_state w4)).
+  { apply ready_init. intros [|[|[|[|c]]]] Hf; cbn in Hf; try discriminate; vm_compute; reflexivity. }
+  destruct H0 as [C0 K0].
+  destruct (ready_evaluate _ _ _ _ _ _ _ _ C0 K0 hist_run1) as (C1 & K1 & _).
+  destruct (ready_write w4 (xs4 1) (xs4 8) 2%nat (Some 8) st4a st4b C1 K1 eq_refl hist_write) as (C2 & K2).
+  - vm_compute. reflexivity.
+  - intros [|[|[|[|c]]]] Hne Hf; cbn in Hf; try discriminate; try congruence; vm_compute; reflexivity.
+  - apply ready_cone; [exact C2|exact K2|reflexivity].
+Qed.
+
+(* the re-evaluation after the write is within q/(1-q) (1+1e-5) tol of the new fixed point 8/3 *)
+Example hist_converged : dist (xs4 8) 0 (v_of r4c) <= (1#2) / (1 - (1#2)) * (rel1 * tol3).
+Proof.
+  assert (Hq0 : 0 <= 1#2) by closed_le. assert (Hq1 : (1#2) < 1) by reflexivity.
+  destruct (converged w4 (xs4 8) (1#2) hist_no_sum (hist_fixed_point 8) hist_row_bound Hq0 Hq1
+              0%nat 100%Z tol3 st4b _ _ hist_ready hist_run2 hist_early) as (_ & H & _).
+  apply H. reflexivity.
 Qed.
